@@ -12,68 +12,127 @@ def WFUnit (u : List Bin) : Prop :=
 
 def sumI (l : List Int) : Int := l.foldl (· + ·) 0
 
-/-! ### partitions -/
+theorem foldl_add_init (a : Int) (l : List Int) :
+    l.foldl (· + ·) a = a + l.foldl (· + ·) 0 := by
+  induction l generalizing a with
+  | nil => simp
+  | cons x xs ih =>
+    simp only [List.foldl_cons]
+    rw [ih (a + x), ih (0 + x)]; omega
+
+theorem sumI_nil : sumI [] = 0 := rfl
+theorem sumI_cons (x : Int) (xs : List Int) : sumI (x :: xs) = x + sumI xs := by
+  unfold sumI
+  rw [List.foldl_cons, foldl_add_init]; omega
+
+/-! ### setFirst / setLast -/
+
+theorem setLast_cons_cons {α} (f : α → α) (x y : α) (t : List α) :
+    setLast f (x :: y :: t) = x :: setLast f (y :: t) := rfl
+
+theorem setFirst_map_inv {α β} (f : α → α) (p : α → β) (h : ∀ x, p (f x) = p x) (l : List α) :
+    (setFirst f l).map p = l.map p := by
+  cases l with
+  | nil => rfl
+  | cons x xs => simp [setFirst, h]
+
+theorem setLast_map_inv {α β} (f : α → α) (p : α → β) (h : ∀ x, p (f x) = p x) (l : List α) :
+    (setLast f l).map p = l.map p := by
+  induction l with
+  | nil => rfl
+  | cons x xs ih =>
+    cases xs with
+    | nil => simp [setLast, h]
+    | cons y t => rw [setLast_cons_cons, List.map_cons, ih]; rfl
+
+theorem setFirst_eq_nil {α} (f : α → α) (l : List α) : setFirst f l = [] ↔ l = [] := by
+  cases l <;> simp [setFirst]
+
+theorem setLast_eq_nil {α} (f : α → α) (l : List α) : setLast f l = [] ↔ l = [] := by
+  cases l with
+  | nil => simp [setLast]
+  | cons x xs => cases xs <;> simp [setLast]
+
+theorem setFirst_head? {α} (f : α → α) (l : List α) : (setFirst f l).head? = l.head?.map f := by
+  cases l <;> rfl
+
+theorem setLast_getLast? {α} (f : α → α) (l : List α) : (setLast f l).getLast? = l.getLast?.map f := by
+  induction l with
+  | nil => rfl
+  | cons x xs ih =>
+    cases xs with
+    | nil => simp [setLast]
+    | cons y t =>
+      rw [setLast_cons_cons]
+      have : setLast f (y :: t) ≠ [] := by simp [setLast_eq_nil]
+      obtain ⟨z, zs, hz⟩ := List.exists_cons_of_ne_nil this
+      rw [hz, List.getLast?_cons_cons, ← hz, ih, List.getLast?_cons_cons]
+
+theorem setLast_head?_inv {α β} (f : α → α) (p : α → β) (h : ∀ x, p (f x) = p x) (l : List α) :
+    (setLast f l).head?.map p = l.head?.map p := by
+  rw [← List.head?_map, setLast_map_inv f p h, List.head?_map]
+
+theorem setLast_mem_inv {α β : Type _} (f : α → α) (p : α → β) (h : ∀ x, p (f x) = p x) (l : List α) :
+    ∀ g ∈ setLast f l, ∃ g0 ∈ l, p g0 = p g := by
+  intro g hg
+  have this := List.mem_map_of_mem (f := p) hg
+  rw [setLast_map_inv f p h] at this
+  obtain ⟨g0, h0, h1⟩ := List.mem_map.mp this
+  exact ⟨g0, h0, h1⟩
 
 theorem splitLens_flatten {α} (l : List α) (ns : List Nat) : (splitLens l ns).flatten = l := by
-  sorry
+  induction ns generalizing l with
+  | nil =>
+    unfold splitLens
+    split
+    · rename_i h; simp [List.isEmpty_iff] at h; simp [h]
+    · simp
+  | cons n ns ih =>
+    unfold splitLens
+    split
+    · rename_i h; simp [List.isEmpty_iff] at h; simp [h]
+    · split
+      · exact ih l
+      · rw [List.flatten_cons, ih, List.take_append_drop]
 
 theorem splitLens_nonempty {α} (l : List α) (ns : List Nat) : ∀ g ∈ splitLens l ns, g ≠ [] := by
-  sorry
+  induction ns generalizing l with
+  | nil =>
+    unfold splitLens
+    split
+    · simp
+    · rename_i h; simp [List.isEmpty_iff] at h; simpa using h
+  | cons n ns ih =>
+    unfold splitLens
+    split
+    · simp
+    · rename_i h
+      simp [List.isEmpty_iff] at h
+      split
+      · exact ih l
+      · rename_i hn
+        intro g hg
+        rcases List.mem_cons.mp hg with rfl | hg
+        · cases l with
+          | nil => exact absurd rfl h
+          | cons a t =>
+            cases n with
+            | zero => exact absurd rfl hn
+            | succ n => simp
+        · exact ih _ g hg
 
-/-- `by_arm` only cuts: the arms of a chromosome concatenate to its rows, in order -/
 theorem armsOfChrom_flatten {α} (rows : List α) (s e : α → Int) (minGap : Int) (minArmBins : Nat) :
     (armsOfChrom rows s e minGap minArmBins).flatten = rows := by
-  sorry
+  unfold armsOfChrom
+  simp only
+  split <;> simp
 
-/-- … and there are at most two of them -/
 theorem armsOfChrom_length {α} (rows : List α) (s e : α → Int) (minGap : Int) (minArmBins : Nat) :
     (armsOfChrom rows s e minGap minArmBins).length ≤ 2 := by
-  sorry
+  unfold armsOfChrom
+  simp only
+  split <;> simp
 
-/-! ### the assembled segments, for every `runs` -/
-
-/-- probes sum to the number of surviving bins -/
-theorem assembleUnit_probes_sum (u : List Bin) (runs : List Nat) :
-    sumI ((assembleUnit u runs).map (·.probes)) = ((u.filter (·.keep)).length : Int) := by
-  sorry
-
-/-- a unit with a surviving bin has a segment; one without has none -/
-theorem assembleUnit_nonempty_iff (u : List Bin) (runs : List Nat) :
-    assembleUnit u runs ≠ [] ↔ ∃ b ∈ u, b.keep = true := by
-  sorry
-
-/-- segments have positive length, are sorted and do not overlap -/
-theorem assembleUnit_sorted_disjoint (u : List Bin) (hw : WFUnit u) (runs : List Nat) :
-    (∀ g ∈ assembleUnit u runs, g.s < g.e) ∧ (assembleUnit u runs).Pairwise (fun a b => a.e ≤ b.s) := by
-  sorry
-
-/-- the first segment starts at the arm's first input bin and the last ends at its last input bin,
-    even when edge bins were filtered out (repaired code) -/
-theorem assembleUnit_endpoints (u : List Bin) (hw : WFUnit u) (runs : List Nat)
-    (hs : ∃ b ∈ u, b.keep = true) :
-    ((assembleUnit u runs).head?.map (·.s)) = u.head?.map (·.s) ∧
-    ((assembleUnit u runs).getLast?.map (·.e)) = u.getLast?.map (·.e) := by
-  sorry
-
-/-- all segments lie on the unit's chromosome, within the span of its input bins -/
-theorem assembleUnit_within (u : List Bin) (hw : WFUnit u) (runs : List Nat) (first last : Bin)
-    (hf : u.head? = some first) (hl : u.getLast? = some last) :
-    ∀ g ∈ assembleUnit u runs, g.chrom = first.chrom ∧ first.s ≤ g.s ∧ g.e ≤ last.e := by
-  sorry
-
-/-- every surviving bin lies in exactly one segment -/
-theorem assembleUnit_each_survivor_once (u : List Bin) (hw : WFUnit u) (runs : List Nat) :
-    ∀ b ∈ u, b.keep = true → ((assembleUnit u runs).filter (containedIn b)).length = 1 := by
-  sorry
-
-/-- a segment's `probes` is the number of surviving bins it contains -/
-theorem assembleUnit_probes_count (u : List Bin) (hw : WFUnit u) (runs : List Nat) :
-    ∀ g ∈ assembleUnit u runs,
-      g.probes = ((u.filter (fun b => b.keep && containedIn b g)).length : Int) := by
-  sorry
-
-/-- weight = sum, depth = weight-averaged depth of ALL input bins of the unit the segment spans;
-    gene = their distinct meaningful names in order -/
 theorem aggregate_fields (unit : List Bin) (g : SegO) :
     let sel := unit.filter (fun b => b.chrom == g.chrom && decide (b.e > g.s) && decide (b.s < g.e))
     (aggregate unit g).weight = sumQ (sel.map (·.weight)) ∧
@@ -81,18 +140,583 @@ theorem aggregate_fields (unit : List Bin) (g : SegO) :
       (aggregate unit g).depth * sumQ (sel.map (·.weight)) = sumQ (sel.map (fun b => b.depth * b.weight))) ∧
     (aggregate unit g).s = g.s ∧ (aggregate unit g).e = g.e ∧ (aggregate unit g).probes = g.probes ∧
     (aggregate unit g).log2 = g.log2 := by
-  sorry
+  intro sel
+  refine ⟨rfl, ?_, rfl, rfl, rfl, rfl⟩
+  intro hpos
+  show (if sumQ (sel.map (·.weight)) > 0 then sumQ (sel.map (fun b => b.depth * b.weight)) / sumQ (sel.map (·.weight)) else 0) * _ = _
+  rw [if_pos hpos]
+  exact Rat.div_mul_cancel (Rat.ne_of_gt hpos)
 
-theorem assembleUnit_aggregated (u : List Bin) (runs : List Nat) :
-    ∀ g ∈ assembleUnit u runs, aggregate u g = g := by
-  sorry
+theorem aggregate_idem (u : List Bin) (g : SegO) : aggregate u (aggregate u g) = aggregate u g := rfl
 
-/-- the survive mask of the deterministic filters, in the property's terms -/
 theorem surviveMask_iff (skipLow : Bool) (minWeight : Rat) (outlier : Bool) (log2 depth w : Rat) :
     surviveMask skipLow minWeight outlier log2 depth w = true ↔
       (skipLow = true → ¬ (log2 < Generated.NULL_LOG2_COVERAGE - Generated.MIN_REF_COVERAGE ∨ depth = 0)) ∧
       outlier = false ∧
       (if minWeight ≠ 0 then ¬ (w < minWeight) else w ≠ 0) := by
-  sorry
+  unfold surviveMask isLowCoverage weightTooLow
+  by_cases hm : minWeight = 0 <;> cases skipLow <;> cases outlier <;> simp [hm]
 
+/-! ### well-formed units -/
+
+theorem WFUnit.sublist {l₁ l₂ : List Bin} (h : l₁.Sublist l₂) (hw : WFUnit l₂) : WFUnit l₁ :=
+  ⟨fun b hb => hw.1 b (h.subset hb), hw.2.sublist h⟩
+
+theorem WFUnit.head_le {a : Bin} {t : List Bin} (hw : WFUnit (a :: t)) :
+    ∀ b ∈ a :: t, a.chrom = b.chrom ∧ a.s ≤ b.s := by
+  intro b hb
+  rcases List.mem_cons.mp hb with rfl | hb
+  · exact ⟨rfl, Int.le_refl _⟩
+  · have h1 := (List.pairwise_cons.mp hw.2).1 b hb
+    have h2 := hw.1 a (List.mem_cons_self ..)
+    exact ⟨h1.1, by omega⟩
+
+theorem WFUnit.le_last {u : List Bin} (hw : WFUnit u) {last : Bin} (hl : u.getLast? = some last) :
+    ∀ b ∈ u, b.e ≤ last.e := by
+  induction u with
+  | nil => simp
+  | cons a t ih =>
+    cases t with
+    | nil =>
+      simp at hl; subst hl; simp
+    | cons b t =>
+      rw [List.getLast?_cons_cons] at hl
+      have hw' : WFUnit (b :: t) := hw.sublist (List.sublist_cons_self ..)
+      have ih' := ih hw' hl
+      intro x hx
+      rcases List.mem_cons.mp hx with rfl | hx
+      · have h1 := (List.pairwise_cons.mp hw.2).1 b (List.mem_cons_self ..)
+        have h2 := hw.1 b (List.mem_cons_of_mem _ (List.mem_cons_self ..))
+        have h3 := ih' b (List.mem_cons_self ..)
+        omega
+      · exact ih' x hx
+
+theorem WFUnit.chrom_eq {u : List Bin} (hw : WFUnit u) {first : Bin} (hf : u.head? = some first) :
+    ∀ b ∈ u, first.chrom = b.chrom ∧ first.s ≤ b.s := by
+  cases u with
+  | nil => simp at hf
+  | cons a t => simp at hf; subst hf; exact hw.head_le
+
+theorem containedIn_iff (b : Bin) (g : SegO) :
+    containedIn b g = true ↔ b.chrom = g.chrom ∧ g.s ≤ b.s ∧ b.e ≤ g.e := by
+  simp [containedIn, and_assoc]
+
+/-! ### the invariant: groups of survivors covered by their segments -/
+
+/-- `g` is the segment of the group `grp` (possibly stretched) -/
+def SegR (grp : List Bin) (g : SegO) : Prop :=
+  grp ≠ [] ∧ g.probes = (grp.length : Int) ∧ ∀ b ∈ grp, b.chrom = g.chrom ∧ g.s ≤ b.s ∧ b.e ≤ g.e
+
+def Cov : List (List Bin) → List SegO → Prop
+  | [], [] => True
+  | grp :: gs, g :: segs => SegR grp g ∧ Cov gs segs
+  | _, _ => False
+
+/-- positive, within `[lo, hi]` on chromosome `c`, sorted and disjoint -/
+def SegsOK (c : String) (lo hi : Int) (segs : List SegO) : Prop :=
+  (∀ g ∈ segs, g.s < g.e ∧ lo ≤ g.s ∧ g.e ≤ hi ∧ g.chrom = c) ∧ segs.Pairwise (fun a b => a.e ≤ b.s)
+
+theorem Cov.mem {gs : List (List Bin)} {segs : List SegO} (hc : Cov gs segs) {b : Bin}
+    (hb : b ∈ gs.flatten) : ∃ g ∈ segs, b.chrom = g.chrom ∧ g.s ≤ b.s ∧ b.e ≤ g.e := by
+  induction gs generalizing segs with
+  | nil => simp at hb
+  | cons grp gs ih =>
+    cases segs with
+    | nil => simp [Cov] at hc
+    | cons g segs =>
+      obtain ⟨hr, hc'⟩ := hc
+      rw [List.flatten_cons] at hb
+      rcases List.mem_append.mp hb with hb | hb
+      · exact ⟨g, List.mem_cons_self .., hr.2.2 b hb⟩
+      · obtain ⟨g', hg', h⟩ := ih hc' hb
+        exact ⟨g', List.mem_cons_of_mem _ hg', h⟩
+
+theorem SegsOK.tail {c lo hi g segs} (h : SegsOK c lo hi (g :: segs)) : SegsOK c lo hi segs :=
+  ⟨fun x hx => h.1 x (List.mem_cons_of_mem _ hx), (List.pairwise_cons.mp h.2).2⟩
+
+theorem Cov.once {c lo hi} {gs : List (List Bin)} {segs : List SegO} (hc : Cov gs segs)
+    (hok : SegsOK c lo hi segs) (hpos : ∀ b ∈ gs.flatten, b.s < b.e) {b : Bin} (hb : b ∈ gs.flatten) :
+    (segs.filter (containedIn b)).length = 1 := by
+  induction gs generalizing segs with
+  | nil => simp at hb
+  | cons grp gs ih =>
+    cases segs with
+    | nil => simp [Cov] at hc
+    | cons g segs =>
+      obtain ⟨hr, hc'⟩ := hc
+      have hpw := (List.pairwise_cons.mp hok.2).1
+      have hbpos := hpos b hb
+      rw [List.flatten_cons] at hb hpos
+      rcases List.mem_append.mp hb with hb | hb
+      · have h1 : containedIn b g = true := (containedIn_iff b g).mpr (hr.2.2 b hb)
+        have h2 : segs.filter (containedIn b) = [] := by
+          rw [List.filter_eq_nil_iff]
+          intro g' hg' hcon
+          have := (containedIn_iff b g').mp hcon
+          have := hpw g' hg'
+          have := hr.2.2 b hb
+          omega
+        rw [List.filter_cons_of_pos h1, h2]; rfl
+      · obtain ⟨g', hg', h⟩ := hc'.mem hb
+        have h1 : ¬ containedIn b g = true := by
+          intro hcon
+          have := (containedIn_iff b g).mp hcon
+          have := hpw g' hg'
+          omega
+        rw [List.filter_cons_of_neg h1]
+        exact ih hc' hok.tail (fun x hx => hpos x (List.mem_append_right _ hx)) hb
+
+theorem Cov.count {c lo hi} {gs : List (List Bin)} {segs : List SegO} (hc : Cov gs segs)
+    (hok : SegsOK c lo hi segs) (hpos : ∀ b ∈ gs.flatten, b.s < b.e) {g : SegO} (hg : g ∈ segs) :
+    g.probes = ((gs.flatten.filter (fun b => containedIn b g)).length : Int) := by
+  induction gs generalizing segs with
+  | nil => cases segs <;> simp [Cov] at hc hg
+  | cons grp gs ih =>
+    cases segs with
+    | nil => simp [Cov] at hc
+    | cons g1 segs =>
+      obtain ⟨hr, hc'⟩ := hc
+      have hpw := (List.pairwise_cons.mp hok.2).1
+      rw [List.flatten_cons] at hpos ⊢
+      rw [List.filter_append, List.length_append]
+      rcases List.mem_cons.mp hg with rfl | hg
+      · have h1 : grp.filter (fun b => containedIn b g) = grp := by
+          rw [List.filter_eq_self]
+          intro b hb
+          exact (containedIn_iff b g).mpr (hr.2.2 b hb)
+        have h2 : gs.flatten.filter (fun b => containedIn b g) = [] := by
+          rw [List.filter_eq_nil_iff]
+          intro b hb hcon
+          have := (containedIn_iff b g).mp hcon
+          obtain ⟨g', hg', h⟩ := hc'.mem hb
+          have := hpw g' hg'
+          have := hpos b (List.mem_append_right _ hb)
+          omega
+        rw [h1, h2, hr.2.1]; simp
+      · have h1 : grp.filter (fun b => containedIn b g) = [] := by
+          rw [List.filter_eq_nil_iff]
+          intro b hb hcon
+          have := (containedIn_iff b g).mp hcon
+          have := hr.2.2 b hb
+          have := hpw g hg
+          have := hpos b (List.mem_append_left _ hb)
+          omega
+        rw [h1, ih hc' hok.tail (fun x hx => hpos x (List.mem_append_right _ hx)) hg]; simp
+
+theorem Cov.length_eq {gs : List (List Bin)} {segs : List SegO} (hc : Cov gs segs) :
+    segs.length = gs.length := by
+  induction gs generalizing segs with
+  | nil => cases segs <;> simp [Cov] at hc ⊢
+  | cons grp gs ih =>
+    cases segs with
+    | nil => simp [Cov] at hc
+    | cons g segs => simp [ih hc.2]
+
+/-! ### building the invariant -/
+
+theorem segOfRun_spec (a : Bin) (t : List Bin) (last : Bin) (hl : (a :: t).getLast? = some last) :
+    ∃ g, segOfRun (a :: t) = some g ∧ g.chrom = a.chrom ∧ g.s = a.s ∧ g.e = last.e ∧
+      g.probes = ((a :: t).length : Int) := by
+  refine ⟨_, rfl, rfl, rfl, ?_, rfl⟩
+  show ((a :: t).getLast?.getD a).e = last.e
+  rw [hl]; rfl
+
+theorem cov_segs0 (c : String) (hi : Int) (gs : List (List Bin)) (hne : ∀ grp ∈ gs, grp ≠ [])
+    (hw : WFUnit gs.flatten) (lo : Int)
+    (hb : ∀ a ∈ gs.flatten, lo ≤ a.s ∧ a.e ≤ hi ∧ a.chrom = c) :
+    Cov gs (gs.filterMap segOfRun) ∧ SegsOK c lo hi (gs.filterMap segOfRun) := by
+  induction gs generalizing lo with
+  | nil => simp [Cov, SegsOK]
+  | cons grp gs ih =>
+    have hgrp := hne grp (List.mem_cons_self ..)
+    cases grp with
+    | nil => exact absurd rfl hgrp
+    | cons a t =>
+      rw [List.flatten_cons] at hw hb
+      obtain ⟨last, hl⟩ : ∃ last, (a :: t).getLast? = some last := by
+        cases h : (a :: t).getLast? with
+        | none => simp at h
+        | some x => exact ⟨x, rfl⟩
+      obtain ⟨g, hg, hgc, hgs, hge, hgp⟩ := segOfRun_spec a t last hl
+      have hwg : WFUnit (a :: t) := hw.sublist (List.sublist_append_left ..)
+      have hwr : WFUnit gs.flatten := hw.sublist (List.sublist_append_right ..)
+      have hcross := (List.pairwise_append.mp hw.2).2.2
+      have hlast_mem : last ∈ a :: t := List.mem_of_getLast? hl
+      have hhead := hwg.head_le
+      have hlast := hwg.le_last hl
+      have hlpos := hwg.1 last hlast_mem
+      have hba := hb a (List.mem_append_left _ (List.mem_cons_self ..))
+      have hbl := hb last (List.mem_append_left _ hlast_mem)
+      have hal := hhead last hlast_mem
+      obtain ⟨ihc, ihok⟩ := ih (fun x hx => hne x (List.mem_cons_of_mem _ hx)) hwr last.e
+        (fun x hx => ⟨(hcross last hlast_mem x hx).2, (hb x (List.mem_append_right _ hx)).2⟩)
+      rw [List.filterMap_cons_some hg]
+      refine ⟨⟨⟨hgrp, hgp, ?_⟩, ihc⟩, ?_, ?_⟩
+      · intro b hbm
+        have h1 := hhead b hbm
+        have h2 := hlast b hbm
+        exact ⟨by rw [hgc]; exact h1.1.symm, by omega, by omega⟩
+      · intro x hx
+        rcases List.mem_cons.mp hx with rfl | hx
+        · exact ⟨by omega, by omega, by omega, by rw [hgc]; exact hba.2.2⟩
+        · have := ihok.1 x hx
+          exact ⟨this.1, by omega, this.2.2.1, this.2.2.2⟩
+      · refine List.pairwise_cons.mpr ⟨?_, ihok.2⟩
+        intro x hx
+        have := ihok.1 x hx
+        omega
+
+theorem cov_setFirst (c : String) (lo hi : Int) (gs : List (List Bin)) (segs : List SegO)
+    (hc : Cov gs segs) (hok : SegsOK c lo hi segs) :
+    Cov gs (setFirst (fun g => if g.chrom == c then { g with s := lo } else g) segs) ∧
+    SegsOK c lo hi (setFirst (fun g => if g.chrom == c then { g with s := lo } else g) segs) := by
+  cases segs with
+  | nil => exact ⟨hc, hok⟩
+  | cons g segs =>
+    cases gs with
+    | nil => simp [Cov] at hc
+    | cons grp gs =>
+      obtain ⟨hr, hc'⟩ := hc
+      have hg := hok.1 g (List.mem_cons_self ..)
+      have hpw := List.pairwise_cons.mp hok.2
+      have hch : (g.chrom == c) = true := by simp [hg.2.2.2]
+      show Cov (grp :: gs) ((if (g.chrom == c) = true then { g with s := lo } else g) :: segs) ∧
+        SegsOK c lo hi ((if (g.chrom == c) = true then { g with s := lo } else g) :: segs)
+      rw [if_pos hch]
+      refine ⟨⟨⟨hr.1, hr.2.1, ?_⟩, hc'⟩, ?_, ?_⟩
+      · intro b hb
+        have := hr.2.2 b hb
+        exact ⟨this.1, by show lo ≤ b.s; omega, this.2.2⟩
+      · intro x hx
+        rcases List.mem_cons.mp hx with rfl | hx
+        · exact ⟨by show lo < g.e; omega, Int.le_refl _, hg.2.2.1, hg.2.2.2⟩
+        · exact hok.1 x (List.mem_cons_of_mem _ hx)
+      · exact List.pairwise_cons.mpr ⟨hpw.1, hpw.2⟩
+
+theorem cov_setLast (c : String) (lo hi : Int) (gs : List (List Bin)) (segs : List SegO)
+    (hc : Cov gs segs) (hok : SegsOK c lo hi segs) :
+    Cov gs (setLast (fun g => if g.chrom == c then { g with e := hi } else g) segs) ∧
+    SegsOK c lo hi (setLast (fun g => if g.chrom == c then { g with e := hi } else g) segs) := by
+  induction segs generalizing gs with
+  | nil => exact ⟨hc, hok⟩
+  | cons g segs ih =>
+    cases gs with
+    | nil => simp [Cov] at hc
+    | cons grp gs =>
+      obtain ⟨hr, hc'⟩ := hc
+      have hg := hok.1 g (List.mem_cons_self ..)
+      have hpw := List.pairwise_cons.mp hok.2
+      cases segs with
+      | nil =>
+        have hch : (g.chrom == c) = true := by simp [hg.2.2.2]
+        show Cov (grp :: gs) [if (g.chrom == c) = true then { g with e := hi } else g] ∧
+          SegsOK c lo hi [if (g.chrom == c) = true then { g with e := hi } else g]
+        rw [if_pos hch]
+        refine ⟨⟨⟨hr.1, hr.2.1, ?_⟩, hc'⟩, ?_, ?_⟩
+        · intro b hb
+          have := hr.2.2 b hb
+          exact ⟨this.1, this.2.1, by show b.e ≤ hi; omega⟩
+        · intro x hx
+          rw [List.mem_singleton] at hx
+          subst hx
+          exact ⟨by show g.s < hi; omega, hg.2.1, Int.le_refl _, hg.2.2.2⟩
+        · exact List.pairwise_singleton ..
+      | cons g2 segs =>
+        rw [setLast_cons_cons]
+        obtain ⟨ihc, ihok⟩ := ih gs hc' hok.tail
+        refine ⟨⟨hr, ihc⟩, ?_, ?_⟩
+        · intro x hx
+          rcases List.mem_cons.mp hx with rfl | hx
+          · exact hg
+          · exact ihok.1 x hx
+        · refine List.pairwise_cons.mpr ⟨?_, ihok.2⟩
+          intro x hx
+          obtain ⟨x0, hx0, hs⟩ := setLast_mem_inv _ (fun g : SegO => g.s) (by
+            intro y; show (if (y.chrom == c) = true then { y with e := hi } else y).s = y.s
+            split <;> rfl) _ x hx
+          have := hpw.1 x0 hx0
+          omega
+
+theorem cov_map (c : String) (lo hi : Int) (h : SegO → SegO)
+    (hh : ∀ g, (h g).chrom = g.chrom ∧ (h g).s = g.s ∧ (h g).e = g.e ∧ (h g).probes = g.probes)
+    (gs : List (List Bin)) (segs : List SegO) (hc : Cov gs segs) (hok : SegsOK c lo hi segs) :
+    Cov gs (segs.map h) ∧ SegsOK c lo hi (segs.map h) := by
+  refine ⟨?_, ?_, ?_⟩
+  · induction gs generalizing segs with
+    | nil => cases segs <;> simp [Cov] at hc ⊢
+    | cons grp gs ih =>
+      cases segs with
+      | nil => simp [Cov] at hc
+      | cons g segs =>
+        obtain ⟨hr, hc'⟩ := hc
+        obtain ⟨h1, h2, h3, h4⟩ := hh g
+        refine ⟨⟨hr.1, by rw [h4]; exact hr.2.1, ?_⟩, ih segs hc' hok.tail⟩
+        intro b hb
+        rw [h1, h2, h3]; exact hr.2.2 b hb
+  · intro x hx
+    obtain ⟨g, hg, rfl⟩ := List.mem_map.mp hx
+    obtain ⟨h1, h2, h3, h4⟩ := hh g
+    rw [h1, h2, h3]; exact hok.1 g hg
+  · rw [List.pairwise_map]
+    refine hok.2.imp ?_
+    intro a b hab
+    rw [(hh a).2.2.1, (hh b).2.1]; exact hab
+
+/-! ### the assembled segments -/
+
+theorem assembleUnit_nil (runs : List Nat) : assembleUnit [] runs = [] := rfl
+
+theorem assembleUnit_cons_eq (first : Bin) (t : List Bin) (runs : List Nat) :
+    assembleUnit (first :: t) runs =
+      if ((first :: t).filter (·.keep)).isEmpty then [] else
+        (setLast (fun g => if g.chrom == ((first :: t).getLast?.getD first).chrom
+            then { g with e := ((first :: t).getLast?.getD first).e } else g)
+          (setFirst (fun g => if g.chrom == first.chrom then { g with s := first.s } else g)
+            ((splitLens ((first :: t).filter (·.keep)) runs).filterMap segOfRun))).map
+          (aggregate (first :: t)) := rfl
+
+theorem aggregate_keeps (u : List Bin) (g : SegO) :
+    (aggregate u g).chrom = g.chrom ∧ (aggregate u g).s = g.s ∧ (aggregate u g).e = g.e ∧
+      (aggregate u g).probes = g.probes := ⟨rfl, rfl, rfl, rfl⟩
+
+theorem splitLens_ne_nil {α} (l : List α) (ns : List Nat) (h : l ≠ []) : splitLens l ns ≠ [] := by
+  intro h0
+  have := splitLens_flatten l ns
+  rw [h0] at this
+  exact h this.symm
+
+theorem segs0_ne_nil (l : List Bin) (ns : List Nat) (h : l ≠ []) :
+    (splitLens l ns).filterMap segOfRun ≠ [] := by
+  have h1 := splitLens_ne_nil l ns h
+  have h2 := splitLens_nonempty l ns
+  cases hs : splitLens l ns with
+  | nil => exact absurd hs h1
+  | cons grp gs =>
+    have := h2 grp (by rw [hs]; exact List.mem_cons_self ..)
+    cases grp with
+    | nil => exact absurd rfl this
+    | cons a t => simp [segOfRun]
+
+theorem assembleUnit_inv (first : Bin) (t : List Bin) (hw : WFUnit (first :: t)) (runs : List Nat)
+    (last : Bin) (hl : (first :: t).getLast? = some last) :
+    ∃ gs, gs.flatten = (first :: t).filter (·.keep) ∧
+      Cov gs (assembleUnit (first :: t) runs) ∧
+      SegsOK first.chrom first.s last.e (assembleUnit (first :: t) runs) ∧
+      ((first :: t).filter (·.keep) ≠ [] →
+        (assembleUnit (first :: t) runs).head?.map (·.s) = some first.s ∧
+        (assembleUnit (first :: t) runs).getLast?.map (·.e) = some last.e) := by
+  have hlast_mem : last ∈ first :: t := List.mem_of_getLast? hl
+  have hlc : last.chrom = first.chrom := (hw.head_le last hlast_mem).1.symm
+  rw [assembleUnit_cons_eq, hl, Option.getD_some, hlc]
+  generalize hsv : (first :: t).filter (·.keep) = sv
+  by_cases hem : sv = []
+  · subst hem
+    exact ⟨[], rfl, by simp [Cov], by simp [SegsOK], fun h => absurd rfl h⟩
+  · have hie : sv.isEmpty = false := by simpa [List.isEmpty_iff] using hem
+    rw [hie]
+    simp only [Bool.false_eq_true, if_false]
+    have hsub : sv.Sublist (first :: t) := hsv ▸ List.filter_sublist
+    have hwsv : WFUnit sv := hw.sublist hsub
+    have hbnd : ∀ a ∈ sv, first.s ≤ a.s ∧ a.e ≤ last.e ∧ a.chrom = first.chrom := by
+      intro a ha
+      have h1 := hw.head_le a (hsub.subset ha)
+      have h2 := hw.le_last hl a (hsub.subset ha)
+      exact ⟨h1.2, h2, h1.1.symm⟩
+    have hfl := splitLens_flatten sv runs
+    have h0 := cov_segs0 first.chrom last.e (splitLens sv runs) (splitLens_nonempty sv runs)
+      (by rw [hfl]; exact hwsv) first.s (by rw [hfl]; exact hbnd)
+    have hne0 := segs0_ne_nil sv runs hem
+    generalize (splitLens sv runs).filterMap segOfRun = segs0 at h0 hne0
+    have h1 := cov_setFirst first.chrom first.s last.e _ _ h0.1 h0.2
+    have h2 := cov_setLast first.chrom first.s last.e _ _ h1.1 h1.2
+    have h3 := cov_map first.chrom first.s last.e (aggregate (first :: t))
+      (aggregate_keeps (first :: t)) _ _ h2.1 h2.2
+    refine ⟨splitLens sv runs, hfl, h3.1, h3.2, fun _ => ⟨?_, ?_⟩⟩
+    · rw [← List.head?_map, List.map_map]
+      have : ((fun g : SegO => g.s) ∘ aggregate (first :: t)) = fun g : SegO => g.s := rfl
+      rw [this, setLast_map_inv _ (fun g : SegO => g.s) (by
+        intro y; show (if (y.chrom == first.chrom) = true then { y with e := last.e } else y).s = y.s
+        split <;> rfl)]
+      cases segs0 with
+      | nil => exact absurd rfl hne0
+      | cons g0 rest =>
+        have hg0 := h0.2.1 g0 (List.mem_cons_self ..)
+        have hch : (g0.chrom == first.chrom) = true := by simp [hg0.2.2.2]
+        show some ((if (g0.chrom == first.chrom) = true then { g0 with s := first.s } else g0).s) = _
+        rw [if_pos hch]
+    · rw [List.getLast?_map, setLast_getLast?]
+      generalize hs1 : setFirst (fun g : SegO => if (g.chrom == first.chrom) = true then { g with s := first.s } else g) segs0 = segs1 at h1
+      have hne1 : segs1 ≠ [] := by
+        rw [← hs1]; intro h; exact hne0 ((setFirst_eq_nil _ _).mp h)
+      cases hx : segs1.getLast? with
+      | none => rw [List.getLast?_eq_none_iff] at hx; exact absurd hx hne1
+      | some x =>
+        have hxm : x ∈ segs1 := List.mem_of_getLast? hx
+        have hxc := (h1.2.1 x hxm).2.2.2
+        have hch : (x.chrom == first.chrom) = true := by simp [hxc]
+        show some ((aggregate (first :: t) (if (x.chrom == first.chrom) = true then { x with e := last.e } else x)).e) = _
+        rw [if_pos hch]
+        rfl
+
+theorem exists_getLast_cons (a : Bin) (t : List Bin) : ∃ last, (a :: t).getLast? = some last := by
+  cases h : (a :: t).getLast? with
+  | none => simp at h
+  | some x => exact ⟨x, rfl⟩
+
+/-- probes sum to the number of surviving bins -/
+theorem assembleUnit_probes_sum (u : List Bin) (runs : List Nat) :
+    sumI ((assembleUnit u runs).map (·.probes)) = ((u.filter (·.keep)).length : Int) := by
+  cases u with
+  | nil => rfl
+  | cons first t =>
+    rw [assembleUnit_cons_eq]
+    generalize (first :: t).filter (·.keep) = sv
+    by_cases hem : sv = []
+    · subst hem; rfl
+    · have hie : sv.isEmpty = false := by simpa [List.isEmpty_iff] using hem
+      rw [hie]
+      simp only [Bool.false_eq_true, if_false]
+      rw [List.map_map]
+      have : ((fun g : SegO => g.probes) ∘ aggregate (first :: t)) = fun g : SegO => g.probes := rfl
+      rw [this, setLast_map_inv _ (fun g : SegO => g.probes) (by
+          intro y
+          show (if (y.chrom == _) = true then { y with e := _ } else y).probes = y.probes
+          split <;> rfl),
+        setFirst_map_inv _ (fun g : SegO => g.probes) (by
+          intro y
+          show (if (y.chrom == _) = true then { y with s := _ } else y).probes = y.probes
+          split <;> rfl)]
+      have key : ∀ gs : List (List Bin),
+          sumI ((gs.filterMap segOfRun).map (fun g : SegO => g.probes)) = (gs.flatten.length : Int) := by
+        intro gs
+        induction gs with
+        | nil => rfl
+        | cons grp gs ih =>
+          cases grp with
+          | nil =>
+            rw [List.filterMap_cons_none (by rfl)]
+            simpa using ih
+          | cons a t' =>
+            obtain ⟨last, hl⟩ := exists_getLast_cons a t'
+            obtain ⟨g, hg, _, _, _, hgp⟩ := segOfRun_spec a t' last hl
+            rw [List.filterMap_cons_some hg, List.map_cons, sumI_cons, ih, hgp, List.flatten_cons,
+              List.length_append]
+            simp
+      rw [key, splitLens_flatten]
+
+/-- a unit with a surviving bin has a segment; one without has none -/
+theorem assembleUnit_nonempty_iff (u : List Bin) (runs : List Nat) :
+    assembleUnit u runs ≠ [] ↔ ∃ b ∈ u, b.keep = true := by
+  cases u with
+  | nil => simp [assembleUnit_nil]
+  | cons first t =>
+    rw [assembleUnit_cons_eq]
+    have hiff : (first :: t).filter (·.keep) ≠ [] ↔ ∃ b ∈ first :: t, b.keep = true := by
+      rw [Ne, List.filter_eq_nil_iff]
+      constructor
+      · intro h
+        apply Classical.byContradiction
+        intro h2
+        exact h (fun a ha hk => h2 ⟨a, ha, hk⟩)
+      · rintro ⟨b, hb, hk⟩ h
+        exact h b hb hk
+    rw [← hiff]
+    generalize (first :: t).filter (·.keep) = sv
+    by_cases hem : sv = []
+    · subst hem; simp
+    · have hie : sv.isEmpty = false := by simpa [List.isEmpty_iff] using hem
+      rw [hie]
+      simp only [Bool.false_eq_true, if_false]
+      refine ⟨fun _ => hem, fun _ h => ?_⟩
+      rw [List.map_eq_nil_iff, setLast_eq_nil, setFirst_eq_nil] at h
+      exact segs0_ne_nil sv runs hem h
+
+/-- segments have positive length, are sorted and do not overlap -/
+theorem assembleUnit_sorted_disjoint (u : List Bin) (hw : WFUnit u) (runs : List Nat) :
+    (∀ g ∈ assembleUnit u runs, g.s < g.e) ∧ (assembleUnit u runs).Pairwise (fun a b => a.e ≤ b.s) := by
+  cases u with
+  | nil => simp [assembleUnit_nil]
+  | cons first t =>
+    obtain ⟨last, hl⟩ := exists_getLast_cons first t
+    obtain ⟨gs, _, _, hok, _⟩ := assembleUnit_inv first t hw runs last hl
+    exact ⟨fun g hg => (hok.1 g hg).1, hok.2⟩
+
+/-- the first segment starts at the arm's first input bin and the last ends at its last input bin,
+    even when edge bins were filtered out (repaired code) -/
+theorem assembleUnit_endpoints (u : List Bin) (hw : WFUnit u) (runs : List Nat)
+    (hs : ∃ b ∈ u, b.keep = true) :
+    ((assembleUnit u runs).head?.map (·.s)) = u.head?.map (·.s) ∧
+    ((assembleUnit u runs).getLast?.map (·.e)) = u.getLast?.map (·.e) := by
+  cases u with
+  | nil => simp at hs
+  | cons first t =>
+    obtain ⟨last, hl⟩ := exists_getLast_cons first t
+    obtain ⟨gs, _, _, _, hend⟩ := assembleUnit_inv first t hw runs last hl
+    have hne : (first :: t).filter (·.keep) ≠ [] := by
+      obtain ⟨b, hb, hk⟩ := hs
+      intro h
+      exact (List.filter_eq_nil_iff.mp h) b hb hk
+    obtain ⟨h1, h2⟩ := hend hne
+    rw [h1, h2, hl]
+    exact ⟨rfl, rfl⟩
+
+/-- all segments lie on the unit's chromosome, within the span of its input bins -/
+theorem assembleUnit_within (u : List Bin) (hw : WFUnit u) (runs : List Nat) (first last : Bin)
+    (hf : u.head? = some first) (hl : u.getLast? = some last) :
+    ∀ g ∈ assembleUnit u runs, g.chrom = first.chrom ∧ first.s ≤ g.s ∧ g.e ≤ last.e := by
+  cases u with
+  | nil => simp at hf
+  | cons a t =>
+    simp only [List.head?_cons, Option.some.injEq] at hf
+    subst hf
+    obtain ⟨gs, _, _, hok, _⟩ := assembleUnit_inv a t hw runs last hl
+    intro g hg
+    have := hok.1 g hg
+    exact ⟨this.2.2.2, this.2.1, this.2.2.1⟩
+
+/-- every surviving bin lies in exactly one segment -/
+theorem assembleUnit_each_survivor_once (u : List Bin) (hw : WFUnit u) (runs : List Nat) :
+    ∀ b ∈ u, b.keep = true → ((assembleUnit u runs).filter (containedIn b)).length = 1 := by
+  cases u with
+  | nil => simp
+  | cons first t =>
+    obtain ⟨last, hl⟩ := exists_getLast_cons first t
+    obtain ⟨gs, hfl, hc, hok, _⟩ := assembleUnit_inv first t hw runs last hl
+    intro b hb hk
+    have hbm : b ∈ gs.flatten := by rw [hfl]; exact List.mem_filter.mpr ⟨hb, hk⟩
+    refine hc.once hok ?_ hbm
+    intro x hx
+    rw [hfl] at hx
+    exact hw.1 x (List.mem_filter.mp hx).1
+
+/-- a segment's `probes` is the number of surviving bins it contains -/
+theorem assembleUnit_probes_count (u : List Bin) (hw : WFUnit u) (runs : List Nat) :
+    ∀ g ∈ assembleUnit u runs,
+      g.probes = ((u.filter (fun b => b.keep && containedIn b g)).length : Int) := by
+  cases u with
+  | nil => simp [assembleUnit_nil]
+  | cons first t =>
+    obtain ⟨last, hl⟩ := exists_getLast_cons first t
+    obtain ⟨gs, hfl, hc, hok, _⟩ := assembleUnit_inv first t hw runs last hl
+    intro g hg
+    have hpos : ∀ x ∈ gs.flatten, x.s < x.e := by
+      intro x hx
+      rw [hfl] at hx
+      exact hw.1 x (List.mem_filter.mp hx).1
+    rw [hc.count hok hpos hg, hfl, List.filter_filter]
+    have : (fun a : Bin => containedIn a g && a.keep) = (fun b : Bin => b.keep && containedIn b g) := by
+      funext a; exact Bool.and_comm _ _
+    rw [this]
+
+theorem assembleUnit_aggregated (u : List Bin) (runs : List Nat) :
+    ∀ g ∈ assembleUnit u runs, aggregate u g = g := by
+  cases u with
+  | nil => simp [assembleUnit_nil]
+  | cons first t =>
+    rw [assembleUnit_cons_eq]
+    split
+    · simp
+    · intro g hg
+      obtain ⟨g', _, rfl⟩ := List.mem_map.mp hg
+      rfl
 end CnvVerif
